@@ -7,7 +7,8 @@ import sys
 ROOT = os.path.dirname(os.path.dirname(os.path.abspath(__file__)))
 sys.path.insert(0, ROOT)
 from lib import props  # noqa: E402
-from lib.manifest_text import TEXT, NOT_BUILT  # noqa: E402
+TEXT = props.TEXT
+NOT_BUILT = {}
 
 ids = [json.loads(l)["id"] for l in open(os.path.join(ROOT, "properties.jsonl"))]
 checks, na = [], []
